@@ -35,8 +35,12 @@ def run(ctx, histories, wire_schema):
             meta.append((schemas[i][1], o, out[1]))
     if not reqs:
         return
+    import time as _t
+    _t0 = _t.time()
+    answers = ctx.driver.ask(reqs)
+    ctx.extra["textT_driver_seconds"] = round(_t.time() - _t0, 1)
     n_wf = n_desc = 0
-    for (src, o, real), a in zip(meta, ctx.driver.ask(reqs)):
+    for (src, o, real), a in zip(meta, answers):
         ctx.count()
         ctx.stat("textT")
         detail = {"part": PART, "source": src, "opts": o, "real": real, "model": a.get("text")}
